@@ -87,7 +87,11 @@ void AddLineInfo(
         PNeu->Contents.FileName = FNum;
         PNeu->Contents.Space    = Space;
         PNeu->Contents.Address  = Address + z;
-        PNeu->Contents.Code     = ((CodeLen < z + 1) || (DontPrint)) ? 0 : WAsmCode[z];
+        PNeu->Contents.Code
+                = ((CodeLen < z + 1) || (DontPrint)
+                   || ((LongWord)(z + 1) * sizeof(*WAsmCode) > (LongWord)MaxCodeLen))
+                        ? 0
+                        : WAsmCode[z];
         if (z == 0) {
             PFirst = PNeu;
         }
